@@ -331,6 +331,52 @@ func init() {
 		"unicode.ToLower", "unicode.ToUpper", "unicode/utf8.ValidString", "unicode/utf8.RuneLen", "regexp.QuoteMeta", "runtime.GOOS"} {
 		H[n] = noop
 	}
+	// Decoders as trusted stream contracts: NewDecoder(r).Decode(&v) stores decoded_T(r), a deterministic
+	// (uninterpreted) function of the reader, into v. Specifications refer to it as decoded(r, T).
+	newDecoder := func(e *Engine, fc *fnCtx, st *State, c *ssa.CallCommon, a []Val, r types.Type) (Val, bool) {
+		ref := e.newRef(st, "decoder")
+		e.sc.declareFun("decsrc", []string{"Int"}, "Int")
+		e.assume(st, "(= (decsrc "+ref+") "+a[0].T+")")
+		return Val{T: ref, S: "Int", GoT: r}, true
+	}
+	decode := func(e *Engine, fc *fnCtx, st *State, c *ssa.CallCommon, a []Val, r types.Type) (Val, bool) {
+		res := e.freshVal("decoderr", r)
+		mi, ok := c.Args[1].(*ssa.MakeInterface)
+		if !ok {
+			return Val{}, false
+		}
+		pt, ok := mi.X.Type().Underlying().(*types.Pointer)
+		if !ok {
+			return Val{}, false
+		}
+		target := e.val(fc, mi.X)
+		e.sc.declareFun("decsrc", []string{"Int"}, "Int")
+		v := e.decodedTerm("(decsrc "+a[0].T+")", pt.Elem())
+		var addr *Addr
+		if target.Addr != nil {
+			addr = target.Addr
+		} else {
+			addr = &Addr{Kind: aPtr, Ref: target.T, ElemT: pt.Elem()}
+		}
+		e.storeTo(st, addr, v)
+		if _, isPtr := pt.Elem().Underlying().(*types.Pointer); isPtr && strings.Contains(c.StaticCallee().String(), "BurntSushi/toml") {
+			// BurntSushi/toml allocates the target when it is a nil pointer (a TOML document is always a table)
+			errT := res
+			if len(res.Tuple) > 0 {
+				errT = res.Tuple[len(res.Tuple)-1]
+			}
+			e.assume(st, implies("(= "+errT.T+" 0)", and("(> "+v.T+" 0)", "(<= "+v.T+" "+e.allocCounter(st)+")")))
+			e.w.Trusted["toml.Decoder.Decode allocates a nil pointer target on success"] = true
+		}
+		e.w.Trusted["decoder as a deterministic function of its reader (stream contract): "+c.StaticCallee().String()] = true
+		return res, true
+	}
+	for _, n := range []string{"encoding/json.NewDecoder", "github.com/BurntSushi/toml.NewDecoder", "gopkg.in/yaml.v3.NewDecoder", "encoding/xml.NewDecoder"} {
+		H[n] = newDecoder
+	}
+	for _, n := range []string{"(*encoding/json.Decoder).Decode", "(*github.com/BurntSushi/toml.Decoder).Decode", "(*gopkg.in/yaml.v3.Decoder).Decode", "(*encoding/xml.Decoder).Decode"} {
+		H[n] = decode
+	}
 	openFn := func(e *Engine, fc *fnCtx, st *State, c *ssa.CallCommon, a []Val, r types.Type) (Val, bool) {
 		v := e.freshVal("opened", r)
 		if len(v.Tuple) == 2 {
@@ -710,4 +756,12 @@ func (e *Engine) rangeFactsTerm(st *State, v Val) {
 	if v.GoT != nil {
 		e.rangeFacts(st.Reach, v, v.GoT)
 	}
+}
+
+// decodedTerm: the value a decoder produces for target type t from source src.
+func (e *Engine) decodedTerm(src string, t types.Type) Val {
+	f := "decoded_" + typeKey(t)
+	srt := e.sortOf(t)
+	e.sc.declareFun(f, []string{"Int"}, srt)
+	return Val{T: "(" + f + " " + src + ")", S: srt, GoT: t}
 }
